@@ -76,6 +76,9 @@ func runImpl(cs Case) (tr trace, v *verdict) {
 			return tr, &verdict{kind: kind, class: cl, what: fmt.Sprintf("op %d (%s): %v", k, op.Op, err)}
 		}
 		st, err := im.observe()
+		if err == errAmbiguous {
+			return tr, &verdict{kind: "skip", class: "c18.skip"}
+		}
 		if err != nil {
 			return tr, &verdict{kind: "diff", class: "c18.observe", what: fmt.Sprintf("after op %d (%s): %v", k, op.Op, err)}
 		}
@@ -125,6 +128,10 @@ func check(c *rig.Ctx, cs Case) (*verdict, trace) {
 		c.Count("skipped:machine-too-slow-for-the-scripted-clock")
 		return nil, tr
 	}
+	if v != nil && v.kind == "skip" {
+		c.Count("skipped:reduced-observation-cannot-parse-DebugInfo-for-these-ids")
+		return nil, tr
+	}
 	if v != nil {
 		return v, tr
 	}
@@ -168,6 +175,16 @@ func check(c *rig.Ctx, cs Case) (*verdict, trace) {
 	// holds a condition the cache does not know (write-through mode, leadership kept)
 	if v := judgeAPI(cs, tr, states); v != nil {
 		return v, tr
+	}
+	if !reqIDObservable {
+		// reduced observation (the optional flow-control shim no longer builds): the request id a burst ends with is
+		// not visible, the model cannot follow the request-id refusals after it; the judge above has run all the same
+		for _, op := range cs.Ops {
+			if op.Op == "burst" {
+				c.Count("reduced:correspondence-skipped-after-burst")
+				return nil, tr
+			}
+		}
 	}
 	// correspondence
 	var mr struct {
